@@ -16,8 +16,10 @@ EXPLANATION = (
     "in MpHeader::encode the AFI written under each address-family arm is that arm's; R19.3 every entry count written is "
     "the length of the very collection the following loop iterates; R19.4 a container that holds exactly one BGP PDU "
     "(BMP Route Monitoring, MRT BGP4MP) does not discard the number of frames encode_to produced; R19.5 the Sent OPEN of a "
-    "Peer Up is built from the local AS number, hold time and identifier. Decides these, not that the embedded PDU parses "
-    "back to the monitored routes.")
+    "Peer Up is built from the local AS number, hold time and identifier; R19.6 the embedded codec's add-path state follows "
+    "the record's own flag; R19.7 a per-(family, prefix) snapshot entry stores only its key's prefix, so a partial withdrawal "
+    "cannot leave withdrawn prefixes in the replayed Route Monitoring UPDATEs. Decides these, not that the embedded PDU "
+    "parses back to the monitored routes in general.")
 ASSUMPTIONS = ["a BGP OPEN is never split by encode_to (it has no entries; C04 R04.5 analyses that function)",
                "MpHeader is built with both addresses of one TCP socket (same family)"]
 
@@ -40,6 +42,8 @@ def run(prog, rep, tier):
     check_addpath_state(prog, r6)
     r5 = rep.rule("R19.5", "Peer Up Sent OPEN is built from local parameters")
     check_sent_open(prog, r5)
+    r7 = rep.rule("R19.7", "a per-prefix snapshot entry replays only the prefix it is keyed by")
+    check_snapshot_entries(prog, r7)
 
 
 def _find(prog, pat):
@@ -562,3 +566,69 @@ def check_sent_open(prog, r):
             else:
                 r.fail(root_name(prog, k), "sent-open-source", "PeerUpData.sent_open does not read local_asn and the local router id (reads %s)" % sorted(txt_f)[:8], fv.loc(bi))
     r.floor("PeerUpData constructions with a Sent OPEN", n, 1)
+
+
+# ------------------------------------------------------------------------------------------ R19.7
+def _whole_list_refs(e, field):
+    """Mentions of `<x>.<field>` in e that are not reached through an iterator item (Iterator::next)."""
+    out = []
+    def go(x):
+        if not isinstance(x, tuple) or not x:
+            return
+        if x[0] == "call" and isinstance(x[1], str) and x[1].endswith("Iterator::next"):
+            return
+        if x[0] == "field" and len(x) >= 3 and x[2] == field:
+            out.append(x)
+        for y in x[1:]:
+            if isinstance(y, tuple):
+                if y and isinstance(y[0], str):
+                    go(y)
+                else:
+                    for z in y:
+                        go(z)
+    go(e)
+    return out
+
+
+def check_snapshot_entries(prog, r):
+    """The BMP Adj-RIB-In snapshot is keyed per (family, prefix) and a withdrawal removes keys; the flush replays each stored
+    value's own prefix list as one Route Monitoring UPDATE.  So the value stored under a key may name that key's prefix only:
+    a value that copies the whole incoming prefix list keeps announcing siblings that were withdrawn since (and replays a
+    k-prefix UPDATE k times).  Armed only while the flush reads the prefixes from the stored value."""
+    ak = prog.one(r"rustybgpd::bmp::apply_snapshot")
+    fk = prog.one(r"rustybgpd::bmp::flush_peer_snapshot")
+    av, fl = view(prog, ak), view(prog, fk)
+    r.analysed(av.name)
+    r.analysed(fl.name)
+    # does the replay read the stored value's list?
+    from_value = None
+    FR = Renderer(fl, depth=12, through_names=True)
+    for bi, si, s_ in fl.aggregates(re.compile(r".*bgp::Update$"), "Reach"):
+        rv = s_["rv"]
+        for nme, f in zip(rv.get("fn") or [], rv["fields"]):
+            if nme == "entries":
+                e = FR.operand(f, 12)
+                from_value = bool([x for x in walk(e) if isinstance(x, tuple) and x and x[0] == "field" and len(x) >= 3 and x[2] == "nlris"])
+    if from_value is None:
+        r.unanalysable("flush_peer_snapshot: no Update::Reach built from the snapshot", fl.loc())
+        return
+    if not from_value:
+        r.ok("flush_peer_snapshot replays the key's prefix, not the stored list")
+        return
+    n = 0
+    AR = Renderer(av, depth=12, through_names=True)
+    ins_blocks = {bi for bi, t in av.calls(re.compile(r".*HashMap::<.*>::insert$"))}
+    for bi, si, s_ in av.aggregates(re.compile(r".*AdjRibInChange$")):
+        rv = s_["rv"]
+        for nme, f in zip(rv.get("fn") or [], rv["fields"]):
+            if nme != "nlris":
+                continue
+            n += 1
+            e = AR.operand(f, 12)
+            whole = _whole_list_refs(e, "nlris")
+            if whole:
+                r.fail(av.name, "snapshot-entry-whole-list", "the value stored under one (family, prefix) key takes its prefix list from %s, i.e. every prefix of the incoming UPDATE: after a "
+                       "partial withdrawal the surviving keys still replay the withdrawn prefixes in the snapshot's Route Monitoring messages" % show(whole[0], 80), av.loc(bi))
+            else:
+                r.ok("apply_snapshot: the stored value's prefix list does not copy the incoming list (per-key prefix)")
+    r.floor("snapshot values built in apply_snapshot", n, 1)
